@@ -835,12 +835,12 @@ fn generate(tier: &str, rng: &mut Rng) -> Vec<Case> {
             k += 1;
         }
     }
-    let n_det = if thorough { 25_000 } else { 1_000 };
+    let n_det = if thorough { 12_000 } else { 700 };
     for i in 0..n_det {
         cases.push(gen_det(rng, format!("det-{i}")));
     }
     // (b) stress: a few configurations, many short rounds
-    let rounds = if thorough { 5000 } else { 250 };
+    let rounds = if thorough { 2500 } else { 160 };
     let mut k = 0;
     for drv in ["iour", "poll"] {
         for lp in ["own", "ext"] {
